@@ -594,7 +594,7 @@ pub fn gen_spec(t: &mut Tape, world: &World, prof: &Profile) -> InvSpec {
     let restat = faults.is_empty() && kill_at.is_none() && t.chance(prof.restat_pct);
     let explain = t.chance(prof.explain_pct);
     let use_c = t.chance(prof.use_c_pct);
-    InvSpec { j, k, targets, spell, restat, explain, faults, kill_at, db_fault: None, use_c }
+    InvSpec { j, k, targets, spell, restat, explain, faults, kill_at, db_fault: None, use_c, abs_reports: false }
 }
 
 fn plural(n: usize) -> &'static str {
